@@ -41,7 +41,8 @@ LEVEL_TEXT = (
     "(altName_invol, respell_alt_of_pure); a witness shows mixed names like 'a_b-c' are not symmetric). "
     "update_new_last_wins / merge_last_wins (priority 'new' and merge: the last scalar item wins, whatever came "
     "before); the other precedence clauses (priority 'old', 'new-defaults', nested merging) are validated by "
-    "oracle + function-level diff only. "
+    "oracle + function-level diff only. collect_env_single / collect_env_ignores_foreign: a DASK_ variable is "
+    "readable under its lower-cased dotted name, other variables are ignored. "
     "update/merge/collect_env/check_deprecations are "
     "modelled and diffed against the real functions on every run; serialize/deserialize and interpret_value are "
     "validated by oracle only (not modelled: base64/json/ast.literal_eval).")
